@@ -8,6 +8,7 @@
    L0 machine (C04/C10).  Buffer management (compaction, partial rows) is tied by the correspondence check, not proved. *)
 From PngV Require Import Base.Bytes Spec.FilterSpec Gen.GenPaeth Model.Filter Proofs.PaethProofs Proofs.FilterProofs Model.Pipeline Proofs.PipelineProofs Base.Inflate.
 From PngV Require Import Model.ZlibBuf Proofs.ZlibBufProofs.
+From PngV Require Import Model.UnfiltBuf Proofs.UnfiltBufProofs.
 
 (* every stream, row count, pixel size, row length (multiple of the filter unit): model rows = specification rows, same errors *)
 Theorem C01_row_pipeline_equals_specification :
@@ -78,6 +79,46 @@ Theorem C01_lookback_covers_deflate_window :
   32768 <= GenStream.LOOKBACK_SIZE.
 Proof. exact lookback_covers_deflate_window. Qed.
 
+(* unfiltering_buffer.rs: n rows taken from the buffer, for ANY state satisfying the buffer invariant, are the n rows of the pipeline model's row loop (with the same errors) *)
+Theorem C01_unfiltering_buffer_refines_row_loop :
+  forall (P : Z -> Z -> Z -> Z) (rl bpp : nat),
+       (forall (f : Z) (prev cur : list Z), length (unfilter_model P f bpp prev cur) = length cur) ->
+       forall (n : nat) (u : ubuf) (prev pending : list Z),
+       UInv u prev pending ->
+       match unfilter_rows P bpp rl n prev pending with
+       | Ok (rows, tl) => exists u2 : ubuf, ub_rows P u rl bpp n = Ok (rows, u2) /\ ub_pending u2 = tl
+       | Err e => ub_rows P u rl bpp n = Err e
+       | Panic _ => True
+       end.
+Proof. exact ub_rows_refines_pipeline. Qed.
+
+(* one unfilter_curr_row reconstructs exactly the next row against exactly the previous reconstructed row *)
+Theorem C01_unfiltering_buffer_one_row :
+  forall (P : Z -> Z -> Z -> Z) (u : ubuf) (prev : list Z) (ft : Z) (body : list Z) (rl bpp : nat),
+       UInv u prev (ft :: body) ->
+       (rl <= length body)%nat ->
+       match row_filter_from_u8 ft with
+       | Some f =>
+           length (unfilter_model P f bpp prev (firstn rl body)) = rl ->
+           exists u' : ubuf,
+             ub_unfilter P u rl bpp = UOkU u' /\
+             UInv u' (unfilter_model P f bpp prev (firstn rl body)) (skipn rl body)
+       | None => ub_unfilter P u rl bpp = UBadFilter ft
+       end.
+Proof. exact ub_unfilter_correct. Qed.
+
+(* compaction + appended inflater output keeps the previous row and extends the pending bytes, whatever the piece sizes *)
+Theorem C01_unfiltering_buffer_append :
+  forall (u : ubuf) (prev pending new : list Z),
+       UInv u prev pending -> UInv (ub_append u new) prev (pending ++ new).
+Proof. exact ub_append_correct. Qed.
+
+(* reset_prev_row forgets the previous row and nothing else *)
+Theorem C01_unfiltering_buffer_reset :
+  forall (u : ubuf) (prev pending : list Z),
+       UInv u prev pending -> UInv (ub_reset_prev_row u) [] pending.
+Proof. exact ub_reset_correct. Qed.
+
 (* ---- non-vacuity: a 2x2 RGB8 image through the complete model pipeline (stored deflate block, filters Sub and Up) *)
 Example C01_nonvacuous :
   decode_frame 2 8 2 2 false ([120; 1; 1; 14; 0; 241; 255; 1; 10; 20; 30; 1; 2; 3; 2; 5; 5; 5; 250; 250; 250] ++ [0;0;0;0])
@@ -90,3 +131,7 @@ Print Assumptions C01_reconstruction_keeps_row_length.
 Print Assumptions C01_inflater_window_and_delivery.
 Print Assumptions C01_inflater_buffer_step.
 Print Assumptions C01_lookback_covers_deflate_window.
+Print Assumptions C01_unfiltering_buffer_refines_row_loop.
+Print Assumptions C01_unfiltering_buffer_one_row.
+Print Assumptions C01_unfiltering_buffer_append.
+Print Assumptions C01_unfiltering_buffer_reset.
